@@ -376,6 +376,11 @@ M("C04", "write-alone-in-multi-overshoots", LX, "                req_size = len(
 T("C04", "ge-instead-gt", LX, "            if return_size + MULTISERVICE_READ_OVERHEAD > self.connection_size:\n                request = ReadTagFragmentedRequestPacket.from_request(self._sequence, request)\n                fragmented_requests.append(request)", "            if return_size + MULTISERVICE_READ_OVERHEAD >= self.connection_size:\n                request = ReadTagFragmentedRequestPacket.from_request(self._sequence, request)\n                fragmented_requests.append(request)")
 T("C04", "swap-compare", LX, "                if req_size > self.connection_size:\n                    request = WriteTagFragmentedRequestPacket.from_request(self._sequence, request)\n                    fragmented_requests.append(request)", "                if self.connection_size < req_size:\n                    request = WriteTagFragmentedRequestPacket.from_request(self._sequence, request)\n                    fragmented_requests.append(request)")
 
+# not a refactor but a different, equally valid behaviour (the TODO in the builder asks for it): requests packed first-fit - the property
+# fixes that every packet fits, not which request shares a packet with which
+T("C04", "first-fit-packing", LX, '        grouped_requests = [[]]\n        current_group = grouped_requests[0]\n        current_response_size = MULTISERVICE_READ_OVERHEAD\n        for req, resp_size in read_requests:\n            if current_response_size + resp_size > self.connection_size:\n                current_group = []\n                grouped_requests.append(current_group)\n                current_response_size = MULTISERVICE_READ_OVERHEAD\n\n            current_group.append(req)\n            current_response_size += resp_size\n', '        # first fit: a request goes into the first packet that still has room for its reply\n        grouped_requests = []\n        room = []\n        for req, resp_size in read_requests:\n            for i, free in enumerate(room):\n                if resp_size <= free:\n                    grouped_requests[i].append(req)\n                    room[i] -= resp_size\n                    break\n            else:\n                grouped_requests.append([req])\n                room.append(self.connection_size - MULTISERVICE_READ_OVERHEAD - resp_size)\n')
+T("C01", "first-fit-packing", LX, '        grouped_requests = [[]]\n        current_group = grouped_requests[0]\n        current_response_size = MULTISERVICE_READ_OVERHEAD\n        for req, resp_size in read_requests:\n            if current_response_size + resp_size > self.connection_size:\n                current_group = []\n                grouped_requests.append(current_group)\n                current_response_size = MULTISERVICE_READ_OVERHEAD\n\n            current_group.append(req)\n            current_response_size += resp_size\n', '        # first fit: a request goes into the first packet that still has room for its reply\n        grouped_requests = []\n        room = []\n        for req, resp_size in read_requests:\n            for i, free in enumerate(room):\n                if resp_size <= free:\n                    grouped_requests[i].append(req)\n                    room[i] -= resp_size\n                    break\n            else:\n                grouped_requests.append([req])\n                room.append(self.connection_size - MULTISERVICE_READ_OVERHEAD - resp_size)\n')
+T("C03", "first-fit-packing", LX, '        grouped_requests = [[]]\n        current_group = grouped_requests[0]\n        current_response_size = MULTISERVICE_READ_OVERHEAD\n        for req, resp_size in read_requests:\n            if current_response_size + resp_size > self.connection_size:\n                current_group = []\n                grouped_requests.append(current_group)\n                current_response_size = MULTISERVICE_READ_OVERHEAD\n\n            current_group.append(req)\n            current_response_size += resp_size\n', '        # first fit: a request goes into the first packet that still has room for its reply\n        grouped_requests = []\n        room = []\n        for req, resp_size in read_requests:\n            for i, free in enumerate(room):\n                if resp_size <= free:\n                    grouped_requests[i].append(req)\n                    room[i] -= resp_size\n                    break\n            else:\n                grouped_requests.append([req])\n                room.append(self.connection_size - MULTISERVICE_READ_OVERHEAD - resp_size)\n')
 # ------------------------------------------------------------------ C01
 M("C01", "marker-a003", CONST, 'STRUCTURE_READ_REPLY = b"\\xa0\\x02"', 'STRUCTURE_READ_REPLY = b"\\xa0\\x03"', ["D1.1"])
 M("C01", "frag-header-3", PL, "                self.value_bytes = self.data[4:]\n                self._data_type = self.data[:4]", "                self.value_bytes = self.data[3:]\n                self._data_type = self.data[:4]", ["D1.1"])
